@@ -7,7 +7,7 @@ import re
 from .. import oracles as O
 from ..fold import Scope, dotted, src
 from .common import (attr_stores, conj_of_facts, ctx, ff_for, find_calls, guarded_raise_probes, must_pass, node_calls, own_nodes, path_text, substitute_src)
-from .edscommon import ATTR_KEYS, E, OD, reader_pairs, signed_widths, writer_pairs
+from .edscommon import ATTR_KEYS, E, OD, convert_kinds, reader_pairs, signed_widths, writer_pairs
 
 EXPLANATION = (
     "R1 option-key agreement between importer and exporter for the 12 variable attributes; R2 every numeric option is "
@@ -239,33 +239,7 @@ def run(chk):
         chk.check(bad is None, "R7", f"{E}:_convert_variable | $NODEID-relative values resolved (specialised for {len(probes)} spellings)", cv.loc(), bad or "")
     # the kind of value each data type's text becomes (binary types: bytes from hex digits; text types: the text itself;
     # REAL: float; every other type: int), decided by specialising _convert_variable per type code
-    kinds_bad = kinds_unknown = None
-    n_types = 0
-    mod_funcs = {n.name: n for n in cv.mod.tree.body if isinstance(n, ast.FunctionDef) and n is not cv.node}
-    for tname, code in sorted(((k, v[0]) for k, v in O.DATA_TYPES.items()), key=lambda kv: kv[1]):
-        if tname in ("OCTET_STRING", "DOMAIN"):
-            cases = [(t_, bytes.fromhex(t_)) for t_ in ("cafe01", "00a1b2", "0A1B2C", "00", "0010")]
-        elif tname in ("VISIBLE_STRING", "UNICODE_STRING"):
-            cases = [("cafe01", "cafe01"), ("0x10", "0x10"), ("007", "007")]
-        elif tname.startswith("REAL"):
-            cases = [("1.5", 1.5), ("-0.25", -0.25)]
-        else:
-            cases = [("0x10", 16), ("0", 0), ("10", 10)]
-        for text, want in cases:
-            r = partial_eval(folder, cv.node, cv.mod, None, {"node_id": None, "var_type": code, "value": text}, mod_funcs)
-            if r[0] == "unknown":
-                kinds_unknown = f"{tname}: {r[1]}"
-                break
-            if r != ("return", want) or type(r[1]) is not type(want):
-                kinds_bad = f"a {tname} value `{text}` becomes {r[1]!r} ({'exception' if r[0] == 'raise' else type(r[1]).__name__}); expected {want!r}"
-                break
-        if kinds_unknown or kinds_bad:
-            break
-        n_types += 1
-    if kinds_unknown:
-        chk.notes.append(f"C08.R7 _convert_variable could not be specialised per type ({kinds_unknown})")
-    else:
-        chk.check(kinds_bad is None, "R7", f"{E}:_convert_variable | kind of value per data type (specialised for {n_types} type codes)", cv.loc(), kinds_bad or "")
+    convert_kinds(chk, "R7")
     if unknown:
         norm_st = [n for n in own_nodes(cv.node) if isinstance(n, ast.Assign) and src(n.targets[0]) == "value"]
         chk.check(any(src(n.value) == "value.replace(' ', '').upper()" for n in norm_st), "R7", f"{E}:_convert_variable | spaces removed, upper-cased", cv.loc(), "")
